@@ -87,6 +87,14 @@ SubfieldY ==
                                                  IsSq(1, QAdd(QSub(QMul(QMul(uu, uu), uu), QMul(FromNat(3 * v * v), uu)), FromNat(4))) } }
           : v \in 1..(IF Tier = "quick" THEN 40 ELSE 120) }
 SubfieldYCases == SetToSeq({ [op |-> "hash.g2", hash |-> ToBE(Add(x[2], top), 48) \o ToBE(x[1], 48), cls |-> "y-in-base-field", src |-> "gen"] : x \in SubfieldY, top \in { Zero, Pow2(383) } })
+\* hashes whose x has x^3 + 4 + 4i on the IMAGINARY axis (real part zero): x = u + v i with u^3 - 3 u v^2 + 4 = 0, i.e. v^2 = (u^3 + 4)/(3u).
+\* c i is a square of Fq2 for every c (its norm c^2 is a square of Fq), so the first curve point is the one over x itself, whatever the
+\* quadratic character of c in Fq is.
+ImagRhs ==
+  UNION { LET t == QMul(QAdd(QMul(QMul(FromNat(u), FromNat(u)), FromNat(u)), FromNat(4)), QInv(FromNat(3 * u)))
+          IN IF ~IsSq(1, t) THEN {} ELSE { <<FromNat(u), w>> : w \in { QSqrt(t), QNeg(QSqrt(t)) } }
+          : u \in 1..(IF Tier = "quick" THEN 12 ELSE 60) }
+ImagRhsCases == SetToSeq({ [op |-> "hash.g2", hash |-> ToBE(x[2], 48) \o ToBE(x[1], 48), cls |-> "rhs-on-imaginary-axis", src |-> "gen"] : x \in ImagRhs })
 
 HashCases ==
   SetToSeq({ [op |-> "hash.zp", hash |-> ToBE(v, 32), src |-> "gen"] : v \in HashInts(RMod, 32) \cup { ModPow2(Rnd(k), 256) : k \in 40..44 } })
@@ -95,7 +103,7 @@ HashCases ==
                 v \in { x \in HashInts(QMod, 48) \cup { Sub(Pow2(381), One), Pow2(381), Add(Pow2(381), FromNat(2)) } \cup { FromNat(k) : k \in 0..12 } \cup { Rnd(k) : k \in 50..55 } : Lt(x, Pow2(384)) } })
   \o SetToSeq({ [op |-> "hash.g2", hash |-> ToBE(v, 48) \o ToBE(w, 48), src |-> "gen"] :
                 v \in { Zero, One, Sub(QMod, One), QMod, Sub(Pow2(384), One), Rnd(60) }, w \in { Zero, FromNat(3), Sub(QMod, One), Add(QMod, FromNat(5)), Pow2(383), Rnd(61) } })
-  \o SubfieldYCases
+  \o SubfieldYCases \o ImagRhsCases
 
 \* ---- scripted random streams -------------------------------------------------------------------------
 LE(v, n) == ToSeq(Pad(v, n))
